@@ -7,6 +7,7 @@ pub mod oracles_stream;
 pub mod pipelines;
 pub mod recw;
 pub mod report;
+pub mod reporters;
 pub mod rng;
 pub mod spec;
 pub mod synth;
